@@ -107,11 +107,21 @@ fn resident(cache: &Cache, universe: u32) -> usize {
 /// universe: every pair enqueues two policy messages) until the number of
 /// resident entries is within `bound`; returns the last count. A legitimate
 /// lag drains, a leak does not.
-fn drain_to_bound(cache: &Cache, universe: u32, bound: usize, rounds: usize) -> usize {
+/// Give maintenance the chance to catch up (a lag drains, a leak does not): keep
+/// touching throw-away keys for as long as the resident count still goes down;
+/// give up after 400 + 2 x pinned rounds without progress. (With the Poll strategy one
+/// maintenance pass examines the parked entries from the oldest one and stops at the
+/// first that is still pinned, moving it to the back: reaching a released entry that
+/// sits behind p pinned ones takes p passes.)
+fn drain_to_bound(cache: &Cache, universe: u32, bound: usize, pinned_now: usize) -> usize {
     let mut res_n = resident(cache, universe);
     let mut noise = universe + 1_000_000;
     let mut i = 0;
-    while res_n > bound && i < rounds {
+    let mut stalled = 0;
+    // ... and, because the maintenance thread may simply not have been scheduled on a busy
+    // machine, not before 2 s have passed without progress either
+    let mut last_progress = std::time::Instant::now();
+    while res_n > bound && i < 2_000_000 && (stalled < 400 + 2 * pinned_now || last_progress.elapsed() < std::time::Duration::from_secs(2)) {
         for _ in 0..40 {
             noise += 1;
             cache.entry(noise, |e| {
@@ -125,8 +135,20 @@ fn drain_to_bound(cache: &Cache, universe: u32, bound: usize, rounds: usize) -> 
                 }
             });
         }
-        std::thread::sleep(std::time::Duration::from_micros(200));
-        res_n = resident(cache, universe);
+        if i % 8 == 7 {
+            std::thread::sleep(std::time::Duration::from_micros(200));
+        }
+        let now = resident(cache, universe);
+        if std::env::var("QV_C16_DEBUG").is_ok() && i % 100 == 0 {
+            eprintln!("DEBUG drain round {i}: resident {now} bound {bound} stalled {stalled}");
+        }
+        if now < res_n {
+            last_progress = std::time::Instant::now();
+            stalled = 0;
+        } else {
+            stalled += 1;
+        }
+        res_n = now;
         i += 1;
     }
     res_n
@@ -360,7 +382,7 @@ fn scripted_history(ctx: &WorkerCtx, rep: &mut Report, r: &mut Rng, c: &Cfg, cas
             let bound = effective_capacity(c.cap) + pinned_now + bound_slack;
             let last = i + 1 == c.len;
             let res_n = if last {
-                drain_to_bound(&cache, c.universe, bound, 4 * c.universe as usize / 32 + 200)
+                drain_to_bound(&cache, c.universe, bound, pinned_now)
             } else {
                 resident(&cache, c.universe)
             };
@@ -489,7 +511,7 @@ fn multi_thread_history(ctx: &WorkerCtx, rep: &mut Report, r: &mut Rng, c: &Cfg,
         }
         let pinned_now = pinned_total.load(Ordering::SeqCst).max(0) as usize;
         let bound = effective_capacity(c.cap) + pinned_now + 2 * 33 + 2 * threads;
-        let res_n = drain_to_bound(&cache, c.universe + threads as u32, bound, 4 * c.universe as usize / 32 + 200);
+        let res_n = drain_to_bound(&cache, c.universe + threads as u32, bound, pinned_now);
         rep.max("resident_entries_mt", res_n as u64);
         if res_n > bound {
             report(ctx, rep, case, c, &[], "bound-exceeded", &format!("after draining maintenance: {res_n} resident > {bound} (pinned {pinned_now}, {threads} threads)"));
@@ -623,6 +645,11 @@ pub fn worker(ctx: &WorkerCtx) -> Report {
             len: if ctx.part == "miri" { 500 } else { ctx.pick(8_000, 60_000) },
         };
         let case = format!("tinylfu#{i} cap={cap} universe={universe} notify={} dedicated={}", c.notify, c.dedicated);
+        if let Ok(f) = std::env::var("QV_C16_CASE") {
+            if f != i.to_string() {
+                continue;
+            }
+        }
         ctx.announce(&case);
         rep.evaluations += 1;
         let before = rep.counters.get("violations").copied().unwrap_or(0);
